@@ -12,6 +12,7 @@ mod c07;
 mod c08;
 mod c09;
 mod c10;
+mod c11;
 mod c12;
 mod c13;
 mod c14;
@@ -27,7 +28,7 @@ use std::time::Instant;
 use util::*;
 
 fn props() -> Vec<PropDef> {
-    vec![c02::DEF, c03::DEF, c04::DEF, c05::DEF, c06::DEF, c07::DEF, c08::DEF, c09::DEF, c10::DEF, c12::DEF, c13::DEF, c14::DEF, c15::DEF, c16::DEF, c17::DEF, c18::DEF, c19::DEF, c20::DEF]
+    vec![c02::DEF, c03::DEF, c04::DEF, c05::DEF, c06::DEF, c07::DEF, c08::DEF, c09::DEF, c10::DEF, c11::DEF, c12::DEF, c13::DEF, c14::DEF, c15::DEF, c16::DEF, c17::DEF, c18::DEF, c19::DEF, c20::DEF]
 }
 
 fn arg(args: &[String], name: &str) -> Option<String> {
@@ -90,7 +91,8 @@ fn main() {
             });
             let cv = v.get("case").unwrap_or(&v);
             let case = Case::from_json(cv).expect("case");
-            let f = find_op(p, &case.op).expect("unknown op in replay");
+            // C11 replays may carry a case of any other property's workload (the sweep)
+            let f = find_op(p, &case.op).or_else(|| all.iter().find_map(|q| find_op(q, &case.op))).expect("unknown op in replay");
             let mut rep = Rep::new();
             vcore::run::exec_case(&case, f, &mut rep);
             if rep.violations.is_empty() {
